@@ -160,13 +160,18 @@ Qed.
 Lemma stale_tins t tk l n : stale (tins t tk l) n <= stale l n + 2.
 Proof. pose proof (stale_le (tins t tk l) n). lia. Qed.
 
+Lemma end_task_pm m how s tk : pm m (x_w (end_task m how s tk)) = pm m (x_w s).
+Proof. reflexivity. Qed.
+
+Lemma fold_end_task_pm m : forall l s, pm m (x_w (fold_left (end_task m 0) l s)) = pm m (x_w s).
+Proof. induction l as [|tk l IH]; intros s; cbn [fold_left]; [reflexivity|]. rewrite IH. apply end_task_pm. Qed.
+
 Lemma poll1_pm k now m s tk : pm m (x_w (poll1 k now m s tk)) <= pm m (x_w s) + tkw tk.
 Proof.
   unfold poll1.
   match goal with |- context [run_prog true k now m ?who ?p ?s0] =>
     pose proof (run_prog_pm true k now m who p s0) as H; destruct (run_prog true k now m who p s0) as [s1 r] end.
-  cbn [fst snd say x_w] in H. unfold tkw. destruct r; cbn [inflight] in H; cbn [on_w x_w]; try lia.
-  - rewrite pm_set_mod. unfold pm, part in *. cbn [bud ready timers nw shut set_tfin]. lia.
+  cbn [fst snd say x_w] in H. unfold tkw. destruct r; cbn [inflight] in H; rewrite ?end_task_pm; cbn [on_w x_w]; try lia.
   - rewrite pm_set_mod. unfold pm, part in *. cbn [bud ready timers nw shut set_timers].
     rewrite tmw_tins. unfold tkw. cbn [tk_rest].
     pose proof (stale_tins (now + d) {| tk_id := tk_id tk; tk_inc := tk_inc tk; tk_new := false; tk_rest := rest |} (timers (w_mod (x_w s1) m)) (nw (w_mod (x_w s1) m))).
@@ -189,26 +194,32 @@ Qed.
 (* the tasks at_sim_start(0) spawns *)
 Definition spw (ps : list prog) : N := fold_right (fun p a => 4 * N.of_nat (length p) + a) 0 ps.
 
-Lemma spawn_all_pm m ps w : pm m (spawn_all m ps w) = pm m w + spw ps.
+Lemma spawn_all_pm m ps w : pm m (spawn_all m ps w) = pm m w + spw (map snd ps).
 Proof.
-  unfold spawn_all. rewrite pm_set_mod. unfold pm, part. cbn [bud ready timers nw shut set_ready]. rewrite rdw_app.
-  assert (E : forall n, rdw (map (fun ip => {| tk_id := N.of_nat (fst ip); tk_inc := inc (w_mod w m); tk_new := true; tk_rest := snd ip |})
-                                (combine (seq n (length ps)) ps)) = spw ps).
+  unfold spawn_all. rewrite pm_set_mod. unfold pm, part. cbn [bud ready timers nw shut set_ready set_hnd]. rewrite rdw_app.
+  assert (E : forall n, rdw (map (fun ip => {| tk_id := N.of_nat (fst ip); tk_inc := inc (w_mod w m); tk_new := true; tk_rest := snd (snd ip) |})
+                                (combine (seq n (length ps)) ps)) = spw (map snd ps)).
   { induction ps as [|p ps IH]; intros n; cbn [length seq combine map rdw spw fold_right]; [reflexivity|].
     rewrite IH. unfold tkw. cbn [tk_rest snd]. reflexivity. }
   rewrite E. lia.
 Qed.
 
-Lemma exec_pm k now m c sp p s : pm m (x_w (fst (exec k now m c sp p s))) <= pm m (x_w s) + spw sp.
+Lemma c_spawn_snd c : map snd (c_spawn c) = c_tasks c.
+Proof.
+  unfold c_spawn. rewrite map_map. cbn [snd]. generalize 0%nat. induction (c_tasks c) as [|p l IH]; intros n; [reflexivity|].
+  cbn [length seq combine map snd]. rewrite IH. reflexivity.
+Qed.
+
+Lemma exec_pm k now m c sp p s : pm m (x_w (fst (exec k now m c sp p s))) <= pm m (x_w s) + spw (map snd sp).
 Proof.
   unfold exec.
   match goal with |- context [run_prog false k now m 0 p ?s0] =>
     pose proof (run_prog_cb_pm k now m 0 p s0) as H; destruct (run_prog false k now m 0 p s0) as [s2 r] end.
-  cbn [fst say on_w x_w] in H. rewrite spawn_all_pm in H.
+  cbn [fst say say_all on_w x_w] in H. rewrite spawn_all_pm in H.
   destruct r; cbn [fst].
   - pose proof (poll_ready_pm k now m s2). lia.
   - lia.
-  - cbn [on_w x_w]. rewrite pm_set_mod. unfold pm, part in *. cbn [bud ready timers nw shut set_ready rdw]. lia.
+  - rewrite fold_end_task_pm. cbn [on_w x_w]. rewrite pm_set_mod. unfold pm, part in *. cbn [bud ready timers nw shut set_ready rdw]. lia.
   - pose proof (poll_ready_pm k now m s2). lia.
 Qed.
 
@@ -223,10 +234,10 @@ Lemma at_sim_start_pm k c now m stage s :
 Proof.
   unfold at_sim_start. destruct (stage =? 0).
   - pose proof (exec_pm k now m (CbStart stage) (c_spawn c) (pick_start c (inc (w_mod (x_w s) m))) s) as H.
-    destruct (exec k now m (CbStart stage) _ _ s) as [s1 p]. cbn [fst] in H.
+    rewrite c_spawn_snd in H. destruct (exec k now m (CbStart stage) _ _ s) as [s1 p]. cbn [fst] in H.
     pose proof (catch_pm c m p (x_w s1)) as Hc. destruct (catch c m p (x_w s1)) as [w2 e2]. cbn [fst x_w] in *. lia.
   - pose proof (exec_pm k now m (CbStart stage) [] [] s) as H.
-    destruct (exec k now m (CbStart stage) [] [] s) as [s1 p]. cbn [fst spw fold_right] in H.
+    destruct (exec k now m (CbStart stage) [] [] s) as [s1 p]. cbn [fst spw fold_right map] in H.
     pose proof (catch_pm c m p (x_w s1)) as Hc. destruct (catch c m p (x_w s1)) as [w2 e2]. cbn [fst x_w] in *. lia.
 Qed.
 
@@ -268,7 +279,7 @@ Lemma handle_message_pm k c now m x s : pm m (x_w (handle_message k c now m x s)
 Proof.
   unfold handle_message. destruct (active (w_mod (x_w s) m)); [|lia].
   pose proof (exec_pm k now m (CbMsg x) [] (pick_msg c x) s) as H.
-  destruct (exec k now m (CbMsg x) [] (pick_msg c x) s) as [s1 p]. cbn [fst spw fold_right x_w] in *. rewrite catch_pm. lia.
+  destruct (exec k now m (CbMsg x) [] (pick_msg c x) s) as [s1 p]. cbn [fst spw fold_right map x_w] in *. rewrite catch_pm. lia.
 Qed.
 
 Lemma async_wakeup_pm k now m s : pm m (x_w (async_wakeup k now m s)) <= pm m (x_w s).
